@@ -137,7 +137,8 @@ def gv_specs(draw, tier):
     b["model"] = draw(st.sampled_from(["springs", "springs", "dense"]))
     b["nac"] = draw(st.sampled_from(["none", "none", "wang", "gonze"]))
     b["q_length"] = draw(st.sampled_from([None, None, 1e-5, 1e-4]))
-    b["via"] = draw(st.sampled_from(["qpoints", "band", "mesh"]))
+    b["via"] = draw(st.sampled_from(["qpoints", "band", "mesh", "class"]))
+    b["gv_cutoff"] = draw(st.sampled_from([None, 1e-4, 0.05, 0.5, 1.5]))  # cutoff_frequency of the GroupVelocity class (THz)
     return b
 
 
@@ -170,6 +171,7 @@ def run_gv(spec):
                 dq_ = sgn * (r.T @ q) - q
                 if np.abs(dq_ - np.rint(dq_)).max() < 1e-5:
                     return Out(nontrivial=False, classes=["skipped_pointgroup_lowered_special_q"])
+    fcut = 5e-2
     if spec["via"] == "band":
         u = np.array([0.013, -0.007, 0.011])
         ph.run_band_structure([[q - u, q, q + u]], with_group_velocities=True)
@@ -177,6 +179,21 @@ def run_gv(spec):
         if np.abs(np.array(bd["qpoints"][0][1]) - q).max() > 1e-12:
             return Out(ok=False, msg="band path does not contain the requested q-point")
         f0, gv = bd["frequencies"][0][1], bd["group_velocities"][0][1]
+    elif spec["via"] == "class":
+        # the GroupVelocity class itself, with its documented cutoff_frequency (modes at or below it are reported with zero velocity)
+        from phonopy.phonon.group_velocity import GroupVelocity
+
+        kw = {} if spec.get("gv_cutoff") is None else {"cutoff_frequency": spec["gv_cutoff"]}
+        if spec["q_length"] is not None:
+            kw["q_length"] = spec["q_length"]
+        gvo = GroupVelocity(ph.dynamical_matrix, symmetry=ph.primitive_symmetry, frequency_factor_to_THz=ph.unit_conversion_factor, **kw)
+        gvo.run([q])
+        gv = gvo.group_velocities[0]
+        f0 = ph.get_frequencies(q)
+        fcut = max(fcut, spec.get("gv_cutoff") or 0.0)
+        below = f0 <= (spec.get("gv_cutoff") or 1e-4)
+        if below.any() and np.abs(gv[below]).max() > 0:
+            return Out(ok=False, msg="GroupVelocity(cutoff_frequency=%r) reports a non-zero velocity for a mode at %.4g THz" % (spec.get("gv_cutoff"), f0[below].max()))
     else:
         ph.run_qpoints([q], with_group_velocities=True)
         d = ph.get_qpoints_dict()
@@ -198,7 +215,7 @@ def run_gv(spec):
     gaps = np.min(np.abs(f0[:, None] - f0[None, :]) + np.eye(len(f0)) * 1e9, axis=1)
     vmax = max(np.abs(grad).max(), 1e-12)
     # modes above the cutoff only (imaginary modes are reported with zero velocity by design)
-    ok = (gaps > max(1e-2, 50 * vmax * h)) & (f0 > 5e-2)
+    ok = (gaps > max(1e-2, 50 * vmax * h)) & (f0 > fcut * (1 + 1e-9))
     if not ok.any():
         return Out(nontrivial=False, classes=["all_modes_degenerate_or_soft"])
     vscale = max(np.abs(grad[ok]).max(), 0.05 * float(np.abs(f0).max()) * float(np.cbrt(abs(np.linalg.det(Lp)))))
@@ -210,7 +227,7 @@ def run_gv(spec):
         return Out(ok=False, info={"err": e}, msg="group velocity differs from the gradient of the reported frequency: rel %.3e (nac %s, q_length %s, via %s, "
                    "q=%s, %d modes compared)" % (e, spec["nac"], spec["q_length"], spec["via"], q.tolist(), int(ok.sum())))
     outside = bool(np.abs(q).max() > 0.5)
-    return Out(ok=True, nontrivial=len(prim) >= 2 or outside, classes=["nac:" + spec["nac"], "ql:%s" % spec["q_length"], "via:" + spec["via"],
+    return Out(ok=True, nontrivial=len(prim) >= 2 or outside, classes=["nac:" + spec["nac"], "ql:%s" % spec["q_length"], "via:" + spec["via"]] + (["gv_cutoff:%s" % spec.get("gv_cutoff")] if spec["via"] == "class" else []) + [
                                                                         "outside_bz" if outside else "inside_bz", "skipped_modes:%d" % int((~ok).sum())],
                info={"err": e})
 
